@@ -52,17 +52,32 @@ def interpose(rec):
     saved = []
 
     def patch(mod, name, new):
-        saved.append((mod, name, getattr(mod, name)))
-        setattr(mod, name, new)
+        # `new` may be a factory taking the current attribute; a name the module does not (or no longer) use is simply not a
+        # crash point of this implementation (which helper creates the cache file, say, is not fixed by the property)
+        if not hasattr(mod, name):
+            return
+        old = getattr(mod, name)
+        saved.append((mod, name, old))
+        setattr(mod, name, new(old) if getattr(new, "_factory", False) else new)
+
+    def wrapping(kind):
+        f = lambda old: _wrap(rec, kind, old)
+        f._factory = True
+        return f
 
     try:
-        patch(ut, "NamedTemporaryFile", _wrap(rec, "tempfile", ut.NamedTemporaryFile))
-        patch(sm, "write_table_hdf5", _wrap(rec, "write", sm.write_table_hdf5))
+        for nm in ("NamedTemporaryFile", "mkstemp", "mkdtemp", "TemporaryDirectory", "TemporaryFile", "mktemp"):
+            patch(ut, nm, wrapping("tempfile"))
+        if hasattr(ut, "tempfile"):
+            import tempfile as _tf
+            patch(ut, "tempfile", _ModProxy(_tf, {nm: _wrap(rec, "tempfile", getattr(_tf, nm)) for nm in
+                                                  ("NamedTemporaryFile", "mkstemp", "mkdtemp", "TemporaryDirectory", "mktemp")}))
+        patch(sm, "write_table_hdf5", wrapping("write"))
         patch(mh, "tb", _ModProxy(tb, {"open_file": _wrap(rec, "mh_open_file", tb.open_file)}))
         patch(mh, "h5py", _ModProxy(h5py, {"File": _wrap(rec, "mh_h5py", h5py.File)}))
-        patch(mh, "table_contains_column", _wrap(rec, "contains", mh.table_contains_column))
-        patch(mh, "batch_tasks", _wrap(rec, "batch_tasks", mh.batch_tasks))
-        patch(mh, "read_batch", _wrap(rec, "read_batch", mh.read_batch))
+        patch(mh, "table_contains_column", wrapping("contains"))
+        patch(mh, "batch_tasks", wrapping("batch_tasks"))
+        patch(mh, "read_batch", wrapping("read_batch"))
         patch(ut, "tb", _ModProxy(tb, {"open_file": _wrap(rec, "utils_open_file", tb.open_file)}))
         patch(ut, "h5py", _ModProxy(h5py, {"File": _wrap(rec, "utils_h5py", h5py.File)}))
         patch(mh, "np", _ModProxy(np, {"concatenate": _wrap(rec, "concatenate", np.concatenate)}))
